@@ -121,16 +121,31 @@ def r4_1(ctx):
     except Unsupported as u:
         raise AnalysisError(f"markup._parse uses a statement the path normal form does not cover ({u})")
     loops = {e for p_ in P for e in p_ if e[0] == "loop" and "finditer" in e[2]}
+    mv = None
+    if not loops:
+        # the same walk over the matches written as  m = search(text); while m is not None: ...; m = search(text, <end of m>)
+        for e in {e for p_ in P for e in p_ if e[0] == "loop" and e[1] == "" and e[2].startswith("while ")}:
+            t_ = e[2][len("while "):]
+            if t_.endswith(" is not None") and t_[: -len(" is not None")].isidentifier():
+                cand = t_[: -len(" is not None")]
+                defs_ = [x.value for x in walk_local(parse.node) if isinstance(x, ast.Assign) and len(x.targets) == 1 and norm(x.targets[0]) == cand]
+                from ..astutil import alias_map as _am41, expand_alias as _ea41
+                al41 = _am41(parse.node)
+                if defs_ and all(isinstance(d_, ast.Call) and norm(_ea41(d_.func, al41)) in ("RE_TAGS.search", "RE_TAGS.match") for d_ in defs_):
+                    loops = {e}
+                    mv = cand
     if len(loops) != 1:
         raise AnchorVanished("_parse: the loop over RE_TAGS.finditer(markup) was not found")
     lp = next(iter(loops))
-    mv = lp[1]
+    mv = mv or lp[1]
     ESC = f"{mv}.group(2)"
     Q, R = f"len({ESC}) // 2", f"len({ESC}) % 2"
     y_bs = ("yield", f"(start, '\\\\' * ({Q}), None)")
     y_lit = ("yield", f"(start, {mv}.group(1)[len({ESC}):], None)")
     from ..yieldpaths import resolve as _resolve
-    bodies = [_resolve(b, keep=("start", "position")) for b in lp[3]]
+    from ..yieldpaths import feasible as _feasible41
+    # a flag set on one branch and tested later (`is_tag = False ... if is_tag:`) resolves to a constant test: such paths are infeasible
+    bodies = [q_ for q_ in (_resolve(b, keep=("start", "position")) for b in lp[3]) if _feasible41(q_)]
     # the parity clauses below are phrased over the offset variable `start`; a tokenizer that carries the offset in another
     # variable (e.g. an extracted helper working on its own copy) is outside what they can decide
     for b_ in bodies:
